@@ -195,7 +195,7 @@ class CheckDataNames(Contract):
     cover_raise = True
 
     def configs(self, tier):
-        return [{"n": 1, "names": "s"}, {"n": 1, "names": ("a",)}, {"n": 2, "names": ("a", "b")}, {"n": 2, "names": ("a",)}, {"n": 2, "names": "ab"}, {"n": 1, "names": None}, {"n": 3, "names": ["x", "y", "z"]}]
+        return [{"n": 1, "names": "s"}, {"n": 1, "names": ("a",)}, {"n": 2, "names": ("a", "b")}, {"n": 2, "names": ("a",)}, {"n": 2, "names": "ab"}, {"n": 1, "names": None}, {"n": 3, "names": ["x", "y", "z"]}, {"n": 1, "names": ("a", "b")}, {"n": 2, "names": ["a", "b", "c"]}, {"n": 2, "names": ("a", "a")}]
 
     def setup(self, B, cfg):
         return (tuple(B.array("d%d" % k, (B.dim("n", 0),)) for k in range(cfg["n"])), cfg["names"]), {}
@@ -221,7 +221,10 @@ class CheckExtraCoordsNames(Contract):
     cover_raise = True
 
     def configs(self, tier):
-        return [{"n": 1, "names": "s"}, {"n": 2, "names": ("a", "b")}, {"n": 2, "names": ("a",)}, {"n": 1, "names": None}, {"n": 0, "names": ()}]
+        out = [{"n": 1, "names": "s"}, {"n": 2, "names": ("a", "b")}, {"n": 2, "names": ("a",)}, {"n": 1, "names": None}, {"n": 0, "names": ()}]
+        # MORE names than extra coordinates (also with none at all), lists, a repeated name
+        out += [{"n": 1, "names": ("a", "b")}, {"n": 2, "names": ["a", "b", "c"]}, {"n": 0, "names": ("a",)}, {"n": 2, "names": ["a", "a"]}, {"n": 3, "names": ("a", "b", "a", "c")}]
+        return out
 
     def setup(self, B, cfg):
         return (tuple(B.array("c%d" % k, (B.dim("n", 0),)) for k in range(2 + cfg["n"])), cfg["names"]), {}
